@@ -1,6 +1,7 @@
 package checks
 
 import (
+	"bytes"
 	"fmt"
 
 	"verif/mc/gen"
@@ -153,6 +154,26 @@ func streamCorpus() []CFrame {
 				add(fmt.Sprintf("%s.nonminimal-inner-varint@%d+%d", gen.Schemas[t].Name, f.Start, len(pad)), reframe(fb[0], body), t)
 			}
 			break
+		}
+	}
+	// CONNECT frames whose protocol header a decoder may object to as soon
+	// as it has it (other name, other level): accepted or not, the answer and
+	// the bytes taken do not depend on the reader or the fragmentation
+	for _, base := range []string{"CONNECT.min", "CONNECT.rich"} {
+		for _, f := range out {
+			if f.Name != base {
+				continue
+			}
+			i := bytes.Index(f.B, []byte("MQTT"))
+			if i < 0 {
+				continue
+			}
+			m := append([]byte{}, f.B...)
+			m[i+3] = 'X'
+			add(base+".protoname-MQTX", m, 1)
+			m = append([]byte{}, f.B...)
+			m[i+4] = 4
+			add(base+".level4", m, 1)
 		}
 	}
 	add("pingreq.overlong-rl5", unhex("c08080808000"), 12)
